@@ -309,7 +309,7 @@ def run(tier, seed):
     chx.absorb(chk, HG, resg)
     scases = [(i, tr) for i in range(len(gb)) for tr in (None, 2) if tier != 'quick' or (i % 3 == 0 or (i // 2) % 4 == 1)]
     # ... and on solver objects that parsed and solved a sibling of the block (same names, other coefficients) before
-    scases += [(i, None, True) for i in range(len(gb)) if tier != 'quick' or i % 4 == 1]
+    scases += [(i, None, True) for i in range(len(gb)) if tier != 'quick' or i % 8 == 1]
     for st, o in pmap(solver_equiv_case, scases):
         if st != 'ok':
             chk.harness_errors.append(o[:800])
